@@ -140,7 +140,14 @@ theorem restart_inv2 {s : Shard} (h2 : Inv2 s) : Inv2 (restart (crash s)) := by
     obtain ⟨p, hp, rfl⟩ := hid
     exact ⟨p, by simpa [restart, crash] using hp, rfl⟩
   · intro ent he
-    have he' : ent ∈ s.index := by simpa [restart, crash] using he
+    have he' : ent ∈ s.index := by
+      have hi : (restart (crash s)).index = (if (!(crash s).indexExists &&
+          (sortNat (((crash s).segs.map (·.1)).eraseDups)).isEmpty) = true then [] else (crash s).index) := by
+        simp [restart]
+      rw [hi] at he
+      split at he
+      · simp at he
+      · simpa [crash] using he
     obtain ⟨p, hp, hid⟩ := h2.indexDirs ent he'
     exact ⟨p, by simpa [restart, crash] using hp, hid⟩
 
